@@ -5,6 +5,10 @@
 mod util;
 mod vals;
 mod c13;
+mod c11;
+mod c15;
+mod c08;
+mod c12;
 mod c07;
 mod c10;
 mod c05;
@@ -15,6 +19,7 @@ mod families;
 mod c01;
 mod c02;
 mod c04;
+mod c03;
 
 use util::{Run, Tier};
 
@@ -57,6 +62,10 @@ fn main() {
     let mut run = Run::new(&prop, seed, tier);
     match (mode.as_str(), prop.as_str()) {
         ("corr", "C13") => c13::corr(&mut run),
+        ("corr", "C11") => c11::corr(&mut run),
+        ("corr", "C15") => c15::corr(&mut run),
+        ("corr", "C08") => c08::corr(&mut run),
+        ("corr", "C12") => c12::corr(&mut run),
         ("corr", "C07") => c07::corr(&mut run),
         ("corr", "C10") => c10::corr(&mut run),
         ("corr", "C05") => c05::corr(&mut run),
@@ -65,6 +74,7 @@ fn main() {
         ("corr", "C01") => c01::corr(&mut run),
         ("corr", "C02") => c02::corr(&mut run),
         ("corr", "C04") => c04::corr(&mut run),
+        ("corr", "C03") => c03::corr(&mut run),
         ("gen", "C04") => {
             c04::gen(&mut run, &out);
             return;
